@@ -49,7 +49,7 @@ STATIC = {
             "not_proved": ["C11t_translators_pure / C11t_history_independent (Props/C11t.lean): after any history the translators, reading capacities through the cache, return what they return for the current table; that the REAL translators reach the table only through get_bonding_capacity / Atom.bonding_capacity (translated from the source and proved equal to the model: GenEq3) is tied by the history correspondence and the fresh-interpreter oracle",
                                                          "cross-process determinism: observation only"]},
     "C12": {"not_proved": ["full privacy of the returned alphabet is FALSE on the unchanged tree (finding F7); C12_refines_value_map_partial excludes histories that mutate a returned alphabet"]},
-    "C13": {}, "C14": {"use_props": ["C14e"], "gen": ["GenEq7", "GenEq8"]},
+    "C13": {"use_props": ["C13p"]}, "C14": {"use_props": ["C14e"], "gen": ["GenEq7", "GenEq8"]},
     "C15": {"gen": ["GenEq5", "GenEq6"]}, "C16": {"gen": ["GenEq", "GenEq2", "GenEq4"]},
     "C17": {"use_props": ["C17x"],
             "not_proved": ["with compatible=True the reported token is the MODERNISED symbol, not the input symbol (C17_input_index_compat; negation example in Props/C17.lean, replayed on the real code)",
